@@ -250,8 +250,10 @@ func runPath(L *Loaded, init *InitState, fn *ssa.Function, cfg *RunConfig, solve
 	hr.Steps += e.Steps
 	hr.Branches += e.Branches
 	hr.StoreOps += e.StoreOps
-	for f := range e.Funcs {
-		hr.Funcs[f] = true
+	for f, real := range e.Funcs {
+		if real {
+			hr.Funcs[f] = true
+		}
 	}
 	for g := range e.DepGlobals {
 		hr.DepGlobals[g] = true
